@@ -7,15 +7,55 @@ import GV.Proofs.EngineBasics
 namespace GV.Props.C14
 open GV
 
-/-- **A due ping is sent and its answer deadline is `min(ping timeout, K/2)` from now**; the next ping is
-    scheduled K seconds from now. -/
+/-- **A due ping is sent**: a PINGREQ goes to the very front of the high-priority queue (unless one is still waiting there
+    behind the operation being written - it is not doubled up) and the next ping is scheduled K seconds from now.  The answer
+    deadline is not armed yet: the server has `min(ping timeout, K/2)` from the *transmission* of the PINGREQ. -/
 theorem due_ping_is_sent (e : Engine) (np : Nat) (s : Settings) (hp : e.pingDeadline = none) (hn : e.nextPing = some np)
-    (hdue : e.now ≥ np) (hs : e.settings = some s) (hk : s.serverKeepAlive > 0) :
+    (hdue : e.now ≥ np) (hs : e.settings = some s) (hk : s.serverKeepAlive > 0) (hnq : e.pingQueued = false) :
     let e' := e.serviceKeepAlive.1
     e.serviceKeepAlive.2 = .ok ∧ e'.highQ = e.nextOpId :: e.highQ ∧ (e'.op? e.nextOpId).map (·.packet) = some .pingreq ∧
-    e'.pingDeadline = some (e.now + min e.cfg.pingTimeout (s.serverKeepAlive * 500)) ∧
-    e'.nextPing = some (e.now + s.serverKeepAlive * 1000) := by
-  simp [Engine.serviceKeepAlive, hp, hn, hdue, Engine.createOp, Engine.enqueue, Engine.op?, lookup_mapInsert_self, hs, hk]
+    e'.pingDeadline = none ∧ e'.nextPing = some (e.now + s.serverKeepAlive * 1000) := by
+  simp [Engine.serviceKeepAlive, Engine.queuePing, hp, hn, hdue, hnq, Engine.createOp, Engine.enqueue, Engine.op?, lookup_mapInsert_self, hs, hk]
+
+/-- a PINGREQ that is still queued (or half written) when the next one falls due is not doubled up; the schedule moves on -/
+theorem queued_ping_is_not_doubled (e : Engine) (np : Nat) (s : Settings) (hp : e.pingDeadline = none) (hn : e.nextPing = some np)
+    (hdue : e.now ≥ np) (hs : e.settings = some s) (hk : s.serverKeepAlive > 0) (hq : e.pingQueued = true) :
+    e.serviceKeepAlive = ({ e with nextPing := some (e.now + s.serverKeepAlive * 1000) }, .ok) := by
+  simp [Engine.serviceKeepAlive, Engine.queuePing, hp, hn, hdue, hq, hs, hk]
+
+/-- **The PINGRESP deadline is armed when the PINGREQ has been completely written**: `min(ping timeout, K/2)` from that
+    moment - a PINGREQ that had to wait behind a large operation does not use up the server's time to answer. -/
+theorem ping_deadline_runs_from_transmission (e : Engine) (id : Nat) (o : Op) (s : Settings)
+    (hc : e.current = some id) (ho : e.op? id = some o) (hp : o.packet = .pingreq) (hs : e.settings = some s) :
+    ∃ e', e.onFullyWritten = some e' ∧ e'.pingDeadline = some (e.now + min e.cfg.pingTimeout (s.serverKeepAlive * 500)) ∧
+      id ∈ e'.pendingWC := by
+  have hset : ((((e.fileWritten id o).setOp { o with pingBase := some e.now }).startAckTimeout id).settings) = some s := by
+    unfold Engine.startAckTimeout
+    split <;> simp [Engine.setOp, Engine.fileWritten, hp, hs]
+  have hnow : ((((e.fileWritten id o).setOp { o with pingBase := some e.now }).startAckTimeout id).now) = e.now := by
+    unfold Engine.startAckTimeout
+    split <;> simp [Engine.setOp, Engine.fileWritten, hp]
+  have hcfg : ((((e.fileWritten id o).setOp { o with pingBase := some e.now }).startAckTimeout id).cfg) = e.cfg := by
+    unfold Engine.startAckTimeout
+    split <;> simp [Engine.setOp, Engine.fileWritten, hp]
+  have hwc : id ∈ ((((e.fileWritten id o).setOp { o with pingBase := some e.now }).startAckTimeout id).pendingWC) := by
+    unfold Engine.startAckTimeout
+    split <;> simp [Engine.setOp, Engine.fileWritten, hp]
+  simp only [Engine.onFullyWritten, hc, ho]
+  generalize ((e.fileWritten id o).setOp { o with pingBase := some e.now }).startAckTimeout id = e3 at hset hnow hcfg hwc ⊢
+  have harm : e3.armPingDeadline o = { e3 with pingDeadline := some (e3.now + min e3.cfg.pingTimeout (s.serverKeepAlive * 500)) } := by
+    unfold Engine.armPingDeadline
+    rw [hp, hset]
+  refine ⟨_, rfl, ?_, ?_⟩
+  · rw [harm, hnow, hcfg]
+  · rw [harm]; exact hwc
+
+/-- nothing but a PINGREQ arms the deadline -/
+theorem only_a_ping_arms_the_deadline (e : Engine) (o : Op) (h : o.packet ≠ .pingreq) : e.armPingDeadline o = e := by
+  unfold Engine.armPingDeadline
+  split
+  · rename_i hp _; exact absurd hp h
+  · rfl
 
 /-- no ping before it is due, none while one is outstanding -/
 theorem no_early_ping (e : Engine) (np : Nat) (hp : e.pingDeadline = none) (hn : e.nextPing = some np) (h : e.now < np) :
